@@ -93,6 +93,9 @@ StepVerdict(e, fValue, fSol, fRt) ==
      \cup (IF fin /\ skipValue THEN {"note_inexact_constant"} ELSE {})
      \cup (IF fValue /\ fin /\ ~skipValue /\ ~isEq /\ CommonDomain(s, o) = 0 THEN {"note_no_common_domain"} ELSE {})
 
+(* e: answers of used rule objects vs brand-new rule objects on the identical tree (C06) *)
+ReprobeVerdict(e) == IF e.used = e.fresh THEN {} ELSE {"answer_depends_on_rule_history"}
+
 (* e: a recorded str(tree) of a tree the parser produced, parsed back with the real parser (C04) *)
 PrintVerdict(e) ==
   IF ~KnownKinds(e.t) \/ ~Finite(e.t) THEN {} ELSE
